@@ -856,11 +856,15 @@ func (vfs *MemFS) RemoveAll(path string) error {
 		return &fs.PathError{Op: op, Path: path, Err: vfs.err.PermDenied}
 	}
 
-	parent.removeChild(pi.Part())
-
 	child.Lock()
+	defer child.Unlock()
+
+	if childUid, _ := child.owner(); parent.stickyDenied(childUid, vfs.User()) {
+		return &fs.PathError{Op: op, Path: path, Err: vfs.err.OpNotPermitted}
+	}
+
+	parent.removeChild(pi.Part())
 	child.delete()
-	child.Unlock()
 
 	return nil
 }
@@ -885,6 +889,13 @@ func (vfs *MemFS) removeAll(parent *dirNode) error {
 		}
 
 		child.Lock()
+
+		if childUid, _ := child.owner(); parent.stickyDenied(childUid, vfs.User()) {
+			child.Unlock()
+
+			return vfs.err.OpNotPermitted
+		}
+
 		child.delete()
 		child.Unlock()
 
